@@ -3,6 +3,7 @@
 A spec is {"entries": [entry...]} where an entry is one of
   {"t": "d", "p": relpath}
   {"t": "f", "p": relpath, "fam": int, "len": int, "flip": [offsets], "mtime": secs-ago}
+  {"t": "sp", "p": relpath, "len": int, "marks": [[offset, byte]...], "mtime": secs-ago}   sparse file: zeros except marks
   {"t": "h", "p": relpath, "to": relpath}            hard link to an earlier file entry
   {"t": "l", "p": relpath, "to": target-string}      symlink (target stored verbatim)
 relpaths are str (os.fsdecode of bytes, so arbitrary bytes survive JSON)."""
@@ -47,6 +48,13 @@ def materialise(spec, root):
             os.utime(p, (mt, mt))
             if "mode" in e:
                 os.chmod(p, e["mode"])
+        elif t == "sp":
+            with open(p, "wb") as f:
+                f.truncate(e["len"])
+                for off, val in e.get("marks", ()):
+                    os.pwrite(f.fileno(), bytes([val]), off)
+            mt = BASE_MTIME + int(e.get("mtime", 0))
+            os.utime(p, (mt, mt))
         elif t == "raw":
             with open(p, "wb") as f:
                 f.write(fse(e["data"]))
@@ -61,6 +69,54 @@ def materialise(spec, root):
         else:
             raise ValueError(t)
     return paths
+
+
+BIG = 8 << 20
+
+
+def content_token(path, big=BIG):
+    """The bytes of a file in a form that can be compared for equality: the bytes themselves up to `big`, otherwise
+    ("sparse", length, ((offset, byte) for every non-zero byte)), read through SEEK_DATA so that a file of several GiB
+    that is mostly a hole costs nothing. Exact: two files are byte-identical iff their tokens are equal."""
+    with open(path, "rb") as f:
+        size = os.fstat(f.fileno()).st_size
+        if size <= big:
+            return f.read()
+        fd = f.fileno()
+        pairs = []
+        pos = 0
+        while pos < size:
+            try:
+                pos = os.lseek(fd, pos, os.SEEK_DATA)
+            except OSError:
+                break  # ENXIO: no data after pos
+            end = os.lseek(fd, pos, os.SEEK_HOLE)
+            while pos < end:
+                chunk = os.pread(fd, min(1 << 20, end - pos), pos)
+                if not chunk:
+                    break
+                if chunk.count(0) != len(chunk):
+                    for k in range(0, len(chunk), 4096):
+                        blk = chunk[k:k + 4096]
+                        if blk.count(0) != len(blk):
+                            pairs.extend((pos + k + j, b) for j, b in enumerate(blk) if b)
+                pos += len(chunk)
+        return ("sparse", size, tuple(pairs))
+
+
+def token_len(tok):
+    return tok[1] if isinstance(tok, tuple) else len(tok)
+
+
+def token_first_diff(a, b):
+    if isinstance(a, tuple) or isinstance(b, tuple):
+        if isinstance(a, tuple) and isinstance(b, tuple):
+            da, db = dict(a[2]), dict(b[2])
+            diffs = [o for o in set(da) | set(db) if da.get(o) != db.get(o)]
+            return min(diffs) if diffs else min(a[1], b[1])
+        return 0
+    n = min(len(a), len(b))
+    return next((k for k in range(n) if a[k] != b[k]), n)
 
 
 # ------------------------------------------------------------------------------------------
